@@ -14,7 +14,7 @@ Check C11_utf8_prefix :
     encode p ++ x = encode s -> firstn (length p) s = p /\ encode (skipn (length p) s) = x.
 Check C11_utf8_injective :
   forall a b, forallb scalar a = true -> forallb scalar b = true -> encode a = encode b -> a = b.
-Check C11_utf8_selfsync_partial :
+Check C11_utf8_byte_classes :
   forall c, (c <= 1114111)%N ->
     exists h t, enc1 c = h :: t /\ is_cont h = false /\ forallb is_cont t = true.
 Check C11_findSubstr_refines :
@@ -31,7 +31,7 @@ Check C11_startsWith_refines :
     starts_impl a b = starts_spec a b.
 Check C11_substr_spec :
   forall s from len, substr_impl s from len = substr_spec s from len.
-Check C11_split_spec_partial :
+Check C11_split_spec :
   forall s sep lim, sep <> [] ->
     exists ps, split_spec s sep lim = Some ps /\ join sep ps = s /\ ps <> [] /\
                (forall n, lim = Some n -> length ps <= S n).
@@ -70,6 +70,26 @@ Check C11_base64_string_roundtrip :
   forall s, forallb scalar s = true ->
     spec_call (CB64Dec (b64_encode (encode s))) = RStr s.
 
+Check C11_utf8_selfsync :
+  forall s p x y,
+    forallb scalar s = true -> forallb scalar p = true -> p <> [] ->
+    encode s = x ++ encode p ++ y ->
+    exists a b, s = a ++ p ++ b /\ x = encode a /\ y = encode b.
+Check C11_split_refines :
+  forall s sep lim, sep <> [] ->
+    forallb scalar s = true -> forallb scalar sep = true ->
+    bsplit s sep lim = map encode (gsplit sep lim s).
+Check C11_endsWith_refines :
+  forall a b, forallb scalar a = true -> forallb scalar b = true ->
+    ends_impl a b = ends_spec a b.
+Check C11_rstrip_refines :
+  forall chars s, rstrip_impl s chars = rstrip_spec s chars.
+Check C11_strip_spec :
+  forall chars s, strip_impl s chars = strip_spec s chars.
+Check eq_refl : bsplit [97; 233; 44; 128512]%N [44]%N None = [[97; 195; 169]; [240; 159; 152; 128]]%N.
+Check eq_refl : ends_impl [97; 233]%N [233]%N = true.
+Check eq_refl : ends_spec [97; 233]%N [169]%N = false.
+Check eq_refl : strip_impl [97; 98; 97]%N [97]%N = [98]%N.
 (** non-vacuity of the hypotheses and the definitions the statements rest on, pinned by evaluation *)
 Check eq_refl : forallb scalar [97; 233; 19990; 128512; 769; 65533]%N = true.
 Check eq_refl : scalar 55296%N = false.
